@@ -83,7 +83,7 @@ def run(ctx):
         raise vlib.ToolError("non-vacuity check failed: historic eviction no longer violates ExactlyOnce in the model")
 
     # L1c: every other strategy list (NonEmptyContent first, Periodic, OnContentChange, without OnWindowClose)
-    mcs = vlib.tlc_mc(FAMILY, "MCWindow.tla", "MC_strat_thorough.cfg" if thorough else "MC_strat_quick.cfg", workers=8, tag="c09-strat")
+    mcs = vlib.tlc_mc(FAMILY, "MCWindow.tla", "MC_strat_thorough.cfg" if thorough else "MC_strat_quick.cfg", workers=8, tag="c09-strat", coverage=False, timeout=3000)
     log(f"[{time.time() - t0:.0f}s] L1 Window model, 8 further strategy lists: {mcs['states']} distinct states, violated={mcs['violated']}")
     if mcs["violated"]:
         raise vlib.ToolError(f"Window.tla violates {mcs['violated']} for a non-default strategy list: model and requirement disagree (not a verdict)")
